@@ -57,6 +57,10 @@ func init() {
 		Level:       "held on every executed case: complete enumeration of n in -2..8 x 0..12 calls x counter types for After/Before, 0..12 calls for Once, n in -2..8 x all 511 success/failure patterns up to length 8 for Retry and RetryWithDelay (the latter inside testing/synctest bubbles: gaps between attempts are exact virtual-time differences)",
 		Technique:   "counting-callback monitor over complete enumeration; virtual time (testing/synctest) for the delay clause",
 		Assumptions: []string{"the fake clock of testing/synctest is trusted as the time source the library reads", "not asserted: Retry's error value for n <= 0; counter wrap-around of narrow integer types after > 127 calls"}})
+	reg(&propCfg{ID: "C08", Pkg: "./props/c08", Variants: simple(false),
+		Level:       "held on every executed case: complete sweep of all sequences up to length 4 (thorough 5) over 23 operations (incl. clock advances to 1 ns before/after the earliest pending deadline) on 2 keys for all six default-expiry x cleanup configurations, plus seeded random sequences up to length 25 on 3 keys; every observable (Get, IsExpired, Count, List) compared after every step with a map-with-deadlines model at the same virtual instant, cleanup ticks included",
+		Technique:   "reference-model trace monitor in virtual time (testing/synctest): observations at exact instants around deadlines and cleanup ticks",
+		Assumptions: []string{"the fake clock of testing/synctest is the time source the library reads (time.Now/Ticker)", "hook: cache.VerifStopCleanup (tag verif) ends the cleanup goroutine at the end of each case", "not asserted: whether Count/List include expired-but-unpurged entries, Delete's result on such an entry, behaviour exactly at a deadline"}})
 	reg(&propCfg{ID: "C04", Pkg: "./props/c04", Variants: simple(false),
 		Technique:   "reference-model trace monitor (map model) over systematic small-scope sweep + seeded random sequences",
 		Assumptions: []string{"the map model and the generators are trusted", "single goroutine; concurrency is C01/C02"}})
